@@ -34,12 +34,12 @@ Async(r) == NReq + r
 NoFid == 0
 
 VARIABLES nreq, rq, reqs, wpc, stack, act, fidref, spc, scur, outq, wire, impl,
-          fc, pool, nfc, cstate, cpc,
+          fc, pool, nfc, cstate, cpc, fdir,
           \* ghost (observation) variables
           cancelled, badcall, crashed, destroyed, creator, calls, extra, closedn
 
 vars == <<nreq, rq, reqs, wpc, stack, act, fidref, spc, scur, outq, wire, impl,
-          fc, pool, nfc, cstate, cpc,
+          fc, pool, nfc, cstate, cpc, fdir,
           cancelled, badcall, crashed, destroyed, creator, calls, extra, closedn>>
 
 NullRq == [kind |-> "none", tag |-> 0, fid |-> 0, newfid |-> 0, oldtag |-> 0,
@@ -62,6 +62,7 @@ Init ==
   /\ fc = [i \in ReqIds |-> [kind |-> "none", for |-> 0]]
   /\ pool = <<>> /\ nfc = 0
   /\ cstate = "open" /\ cpc = "run"
+  /\ fdir = [f \in Fids |-> f \in InitFids]
   /\ cancelled = {} /\ badcall = FALSE /\ crashed = FALSE
   /\ destroyed = [f \in Fids |-> 0]
   /\ creator = [f \in Fids |-> 0]
@@ -114,7 +115,7 @@ Recv(kind, tag, fid, newfid, oldtag) ==
                          ![IF older # 0 THEN older ELSE r].prev = IF older # 0 THEN r ELSE 0]
      /\ reqs' = [reqs EXCEPT ![tag] = r]
      /\ wpc' = [wpc EXCEPT ![r] = IF older = 0 THEN "start" ELSE "queued"]
-  /\ UNCHANGED <<stack, act, fidref, spc, scur, outq, wire, impl, cstate, cpc>>
+  /\ UNCHANGED <<stack, act, fidref, spc, scur, outq, wire, impl, cstate, cpc, fdir>>
   /\ UNCHANGED ghosts
 
 -----------------------------------------------------------------------------
@@ -148,18 +149,18 @@ WStart(r) ==
        ELSE /\ rq' = [rq EXCEPT ![r].work = TRUE]
             /\ wpc' = [wpc EXCEPT ![r] = "dispatch"]
             /\ UNCHANGED <<stack, act>>
-  /\ UNCHANGED <<nreq, reqs, fidref, spc, scur, outq, wire, impl, fc, pool, nfc, cstate, cpc>>
+  /\ UNCHANGED <<nreq, reqs, fidref, spc, scur, outq, wire, impl, fc, pool, nfc, cstate, cpc, fdir>>
   /\ UNCHANGED ghosts
 
 (* worker whose process() returned right after the flushed-path Respond (fixed code): no proc_end *)
 WRet(r) ==
   /\ wpc[r] = "ret" /\ AtBase(r)
   /\ wpc' = [wpc EXCEPT ![r] = "done"]
-  /\ UNCHANGED <<nreq, rq, reqs, stack, act, fidref, spc, scur, outq, wire, impl, fc, pool, nfc, cstate, cpc>>
+  /\ UNCHANGED <<nreq, rq, reqs, stack, act, fidref, spc, scur, outq, wire, impl, fc, pool, nfc, cstate, cpc, fdir>>
   /\ UNCHANGED ghosts
 
-Forward(r, fr, hf, hn, cr) ==      \* the SrvReqOps method is entered; it parks in the scripted implementation
-  /\ fidref' = fr
+Forward(r, fr, hf, hn, cr, fd) ==  \* the SrvReqOps method is entered; it parks in the scripted implementation
+  /\ fidref' = fr /\ fdir' = fd
   /\ rq' = [rq EXCEPT ![r].hfid = hf, ![r].hnew = hn]
   /\ impl' = [impl EXCEPT ![r] = "called"]
   /\ badcall' = (badcall \/ r \in cancelled)
@@ -170,7 +171,7 @@ Forward(r, fr, hf, hn, cr) ==      \* the SrvReqOps method is entered; it parks 
 
 Refuse(r, fr, hf) ==               \* RespondError(...) by the framework
   /\ fc' = Packed(fc, r, "Rerror")
-  /\ fidref' = fr
+  /\ fidref' = fr /\ UNCHANGED fdir
   /\ RespEnter(r, r, [rq EXCEPT ![r].hfid = hf])
   /\ wpc' = [wpc EXCEPT ![r] = "end"]
   /\ UNCHANGED <<impl, badcall, calls, creator>>
@@ -180,15 +181,17 @@ WDispatch(r) ==
   /\ LET k == rq[r].kind  f == rq[r].fid  nf == rq[r].newfid IN
      CASE k \in {"Stat", "Clunk"} ->
             IF fidref[f] = 0 THEN Refuse(r, fidref, NoFid)
-            ELSE Forward(r, [fidref EXCEPT ![f] = @ + 1], f, NoFid, creator)
-       [] k = "Attach" ->
+            ELSE Forward(r, [fidref EXCEPT ![f] = @ + 1], f, NoFid, creator, fdir)
+       [] k = "Attach" ->          \* FidNew: a fresh SrvFid has type 0 until attachPost
             IF fidref[f] # 0 THEN Refuse(r, fidref, NoFid)
-            ELSE Forward(r, [fidref EXCEPT ![f] = 1], f, NoFid, [creator EXCEPT ![f] = r])
-       [] k = "Walk" ->
+            ELSE Forward(r, [fidref EXCEPT ![f] = 1], f, NoFid, [creator EXCEPT ![f] = r], [fdir EXCEPT ![f] = FALSE])
+       [] k = "Walk" ->            \* the harness walks by name, so the source must be a directory
             IF fidref[f] = 0 THEN Refuse(r, fidref, NoFid)
-            ELSE IF nf = f THEN Forward(r, [fidref EXCEPT ![f] = @ + 2], f, f, creator)
+            ELSE IF ~fdir[f] THEN Refuse(r, [fidref EXCEPT ![f] = @ + 1], f)
+            ELSE IF nf = f THEN Forward(r, [fidref EXCEPT ![f] = @ + 2], f, f, creator, fdir)
             ELSE IF fidref[nf] # 0 THEN Refuse(r, [fidref EXCEPT ![f] = @ + 1], f)
-            ELSE Forward(r, [fidref EXCEPT ![f] = @ + 1, ![nf] = 1], f, nf, [creator EXCEPT ![nf] = r])
+            ELSE Forward(r, [fidref EXCEPT ![f] = @ + 1, ![nf] = 1], f, nf, [creator EXCEPT ![nf] = r],
+                         [fdir EXCEPT ![nf] = fdir[f]])
        [] k = "Flush" ->     \* srv.flush up to flush_status: pack Rflush, chain onto the target under conn.Lock
             LET tgt == reqs[rq[r].oldtag] IN
             /\ fc' = Packed(fc, r, "RFlush")
@@ -197,7 +200,7 @@ WDispatch(r) ==
                                        ![tgt].flushreq = r]
                        ELSE rq
             /\ wpc' = [wpc EXCEPT ![r] = "flush2"]
-            /\ UNCHANGED <<stack, act, fidref, impl, badcall, calls, creator>>
+            /\ UNCHANGED <<stack, act, fidref, impl, badcall, calls, creator, fdir>>
   /\ UNCHANGED <<nreq, reqs, spc, scur, outq, wire, pool, nfc, cstate, cpc>>
   /\ UNCHANGED <<cancelled, crashed, destroyed, extra, closedn>>
 
@@ -212,14 +215,14 @@ WFlush2(r) ==                  \* flush_status -> flush_act (or Respond at once 
                    /\ UNCHANGED <<stack, act>>
               ELSE /\ wpc' = [wpc EXCEPT ![r] = "flush3o"]
                    /\ UNCHANGED <<rq, stack, act>>
-  /\ UNCHANGED <<nreq, reqs, fidref, spc, scur, outq, wire, impl, fc, pool, nfc, cstate, cpc>>
+  /\ UNCHANGED <<nreq, reqs, fidref, spc, scur, outq, wire, impl, fc, pool, nfc, cstate, cpc, fdir>>
   /\ UNCHANGED ghosts
 
 WFlush3Cancel(r) ==            \* flush_act: r.Respond() on the not-yet-started target
   /\ wpc[r] = "flush3c" /\ AtBase(r)
   /\ RespEnter(r, rq[r].tgt, rq)
   /\ wpc' = [wpc EXCEPT ![r] = "end"]
-  /\ UNCHANGED <<nreq, reqs, fidref, spc, scur, outq, wire, impl, fc, pool, nfc, cstate, cpc>>
+  /\ UNCHANGED <<nreq, reqs, fidref, spc, scur, outq, wire, impl, fc, pool, nfc, cstate, cpc, fdir>>
   /\ UNCHANGED ghosts
 
 (* flush_act with the target in the implementation: FlushOp.Flush(tgt) if provided.
@@ -231,7 +234,7 @@ WFlush3Op(r, cancel) ==
        THEN RespEnter(r, rq[r].tgt, [rq EXCEPT ![rq[r].tgt].flush = TRUE])
        ELSE UNCHANGED <<rq, stack, act>>
   /\ wpc' = [wpc EXCEPT ![r] = "end"]
-  /\ UNCHANGED <<nreq, reqs, fidref, spc, scur, outq, wire, impl, fc, pool, nfc, cstate, cpc>>
+  /\ UNCHANGED <<nreq, reqs, fidref, spc, scur, outq, wire, impl, fc, pool, nfc, cstate, cpc, fdir>>
   /\ UNCHANGED ghosts
 
 RKind(k, out) == IF out = "err" THEN "Rerror" ELSE "R" \o k
@@ -245,7 +248,7 @@ ImplRespond(r, out) ==
   /\ fc' = Packed(fc, r, IF out = "partial" THEN "RWalkPartial" ELSE RKind(rq[r].kind, out))
   /\ RespEnter(r, r, rq)
   /\ wpc' = [wpc EXCEPT ![r] = "end"]
-  /\ UNCHANGED <<nreq, reqs, fidref, spc, scur, outq, wire, pool, nfc, cstate, cpc>>
+  /\ UNCHANGED <<nreq, reqs, fidref, spc, scur, outq, wire, pool, nfc, cstate, cpc, fdir>>
   /\ UNCHANGED ghosts
 
 (* ... or returns without answering and answers later from a goroutine of its own *)
@@ -253,7 +256,7 @@ ImplReturn(r) ==
   /\ Late
   /\ wpc[r] = "impl" /\ AtBase(r) /\ impl[r] = "called"
   /\ wpc' = [wpc EXCEPT ![r] = "end"]
-  /\ UNCHANGED <<nreq, rq, reqs, stack, act, fidref, spc, scur, outq, wire, impl, fc, pool, nfc, cstate, cpc>>
+  /\ UNCHANGED <<nreq, rq, reqs, stack, act, fidref, spc, scur, outq, wire, impl, fc, pool, nfc, cstate, cpc, fdir>>
   /\ UNCHANGED ghosts
 
 ImplLate(r, out) ==
@@ -262,26 +265,25 @@ ImplLate(r, out) ==
   /\ impl' = [impl EXCEPT ![r] = "answered"]
   /\ fc' = Packed(fc, r, IF out = "partial" THEN "RWalkPartial" ELSE RKind(rq[r].kind, out))
   /\ RespEnter(Async(r), r, rq)
-  /\ UNCHANGED <<nreq, reqs, wpc, fidref, spc, scur, outq, wire, pool, nfc, cstate, cpc>>
+  /\ UNCHANGED <<nreq, reqs, wpc, fidref, spc, scur, outq, wire, pool, nfc, cstate, cpc, fdir>>
   /\ UNCHANGED ghosts
 
 (* an extra answer (RespondError) to an already answered request whose reply buffer the request
    still owns (not yet handed back to the pool): re-packs the buffer, then Respond returns at once *)
 RcOwned(r) == ~\E i \in 1..Len(wire) : wire[i].req = r
-ImplExtra(r) ==
-  /\ Extra /\ impl[r] = "answered" /\ ~extra[r] /\ AtBase(Async(r)) /\ rq[r].kind # "Flush"
+ImplExtra(r) ==      \* a goroutine of the implementation calls r.RespondError again: re-pack, Respond returns at once
+  /\ Extra /\ impl[r] = "answered" /\ ~extra[r] /\ rq[r].kind # "Flush"
   /\ RcOwned(r) /\ ~(spc = "writing" /\ scur = r)
   /\ extra' = [extra EXCEPT ![r] = TRUE]
   /\ fc' = Packed(fc, r, "Rerror")
-  /\ RespEnter(Async(r), r, rq)
-  /\ UNCHANGED <<nreq, reqs, wpc, fidref, spc, scur, outq, wire, impl, pool, nfc, cstate, cpc>>
+  /\ UNCHANGED <<nreq, rq, reqs, wpc, stack, act, fidref, spc, scur, outq, wire, impl, pool, nfc, cstate, cpc, fdir>>
   /\ UNCHANGED <<cancelled, badcall, crashed, destroyed, creator, calls, closedn>>
 
 WEnd(r) ==                     \* proc_end: clear work, remember that no answer was produced
   /\ wpc[r] = "end" /\ AtBase(r)
   /\ rq' = [rq EXCEPT ![r].work = FALSE, ![r].saved = ~rq[r].resp]
   /\ wpc' = [wpc EXCEPT ![r] = "done"]
-  /\ UNCHANGED <<nreq, reqs, stack, act, fidref, spc, scur, outq, wire, impl, fc, pool, nfc, cstate, cpc>>
+  /\ UNCHANGED <<nreq, reqs, stack, act, fidref, spc, scur, outq, wire, impl, fc, pool, nfc, cstate, cpc, fdir>>
   /\ UNCHANGED ghosts
 
 -----------------------------------------------------------------------------
@@ -302,7 +304,7 @@ RUnlink(g, t) ==               \* the conn.Lock section of Respond, as coded
        ELSE /\ reqs' = [reqs EXCEPT ![rq[t].tag] = 0]
             /\ act' = [act EXCEPT ![t].st = "post", ![t].cur = rq[t].flushreq, ![t].nextreq = 0]
             /\ UNCHANGED rq
-  /\ UNCHANGED <<nreq, wpc, stack, fidref, spc, scur, outq, wire, impl, fc, pool, nfc, cstate, cpc>>
+  /\ UNCHANGED <<nreq, wpc, stack, fidref, spc, scur, outq, wire, impl, fc, pool, nfc, cstate, cpc, fdir>>
   /\ UNCHANGED ghosts
 
 (* PostProcess: the *Post function chosen by the request type reads the CURRENT type of req.Rc *)
@@ -321,6 +323,7 @@ RPost(g, t) ==
          gone == {f \in Fids : fidref[f] > 0 /\ d2[f] = 0} IN
      /\ crashed' = (crashed \/ crash)
      /\ fidref' = d2
+     /\ fdir' = IF k = "Attach" /\ rk = "RAttach" /\ hf # NoFid THEN [fdir EXCEPT ![hf] = TRUE] ELSE fdir
      /\ destroyed' = [f \in Fids |-> destroyed[f] + (IF f \in gone THEN 1 ELSE 0)]
      /\ rq' = [rq EXCEPT ![t].hfid = NoFid, ![t].hnew = NoFid]
   /\ act' = [act EXCEPT ![t].st = "enq"]
@@ -336,7 +339,7 @@ REnq(g, t) ==
      ELSE IF spc = "idle" THEN /\ spc' = "got" /\ scur' = t /\ UNCHANGED outq
      ELSE /\ Len(outq) < Maxpend /\ outq' = Append(outq, t) /\ UNCHANGED <<spc, scur>>
   /\ act' = [act EXCEPT ![t].st = "next"]
-  /\ UNCHANGED <<nreq, rq, reqs, wpc, stack, fidref, wire, impl, fc, pool, nfc, cstate, cpc>>
+  /\ UNCHANGED <<nreq, rq, reqs, wpc, stack, fidref, wire, impl, fc, pool, nfc, cstate, cpc, fdir>>
   /\ UNCHANGED ghosts
 
 (* Unwinding: after "go nextreq.process()" the loop over the collected flush chain runs; each
@@ -362,7 +365,7 @@ RNext(g, t) ==                 \* resp_next: go nextreq.process(); then the flus
          u == Unwind(g, rq, stack, [act EXCEPT ![t].st = "loop"]) IN
      /\ wpc' = IF nx # 0 THEN [wpc EXCEPT ![nx] = "start"] ELSE wpc
      /\ rq' = u[1] /\ stack' = u[2] /\ act' = u[3]
-  /\ UNCHANGED <<nreq, reqs, fidref, spc, scur, outq, wire, impl, fc, pool, nfc, cstate, cpc>>
+  /\ UNCHANGED <<nreq, reqs, fidref, spc, scur, outq, wire, impl, fc, pool, nfc, cstate, cpc, fdir>>
   /\ UNCHANGED ghosts
 
 -----------------------------------------------------------------------------
@@ -371,7 +374,7 @@ SWrite ==                      \* send_got: SetTag, then blocked in Write until 
   /\ spc = "got"
   /\ spc' = "writing"
   /\ crashed' = (crashed \/ fc[rq[scur].rc].kind = "none")   \* SetTag on a reply that was never packed
-  /\ UNCHANGED <<nreq, rq, reqs, wpc, stack, act, fidref, scur, outq, wire, impl, fc, pool, nfc, cstate, cpc>>
+  /\ UNCHANGED <<nreq, rq, reqs, wpc, stack, act, fidref, scur, outq, wire, impl, fc, pool, nfc, cstate, cpc, fdir>>
   /\ UNCHANGED <<cancelled, badcall, destroyed, creator, calls, extra, closedn>>
 
 Replies(r) == {i \in 1..Len(wire) : wire[i].req = r}
@@ -388,7 +391,7 @@ CRecv ==                       \* the client reads the frame (content as it is N
   /\ cancelled' = IF rq[scur].kind = "Flush" /\ rq[scur].tgt # 0 /\ Replies(rq[scur].tgt) = {}
                     THEN cancelled \cup {rq[scur].tgt} ELSE cancelled
   /\ SenderNext
-  /\ UNCHANGED <<nreq, rq, reqs, wpc, stack, act, fidref, impl, fc, nfc, cstate, cpc>>
+  /\ UNCHANGED <<nreq, rq, reqs, wpc, stack, act, fidref, impl, fc, nfc, cstate, cpc, fdir>>
   /\ UNCHANGED <<badcall, crashed, destroyed, creator, calls, extra, closedn>>
 
 -----------------------------------------------------------------------------
@@ -397,20 +400,20 @@ ClientClose ==                 \* the client closes its end: recv sees EOF and p
   /\ CanClose /\ cstate = "open" /\ cpc = "run"     \* a Write in progress fails, the sender recycles and selects
   /\ cstate' = "eof" /\ cpc' = "enter"
   /\ IF spc = "writing" THEN SenderNext ELSE UNCHANGED <<spc, scur, outq, pool>>
-  /\ UNCHANGED <<nreq, rq, reqs, wpc, stack, act, fidref, wire, impl, fc, nfc>>
+  /\ UNCHANGED <<nreq, rq, reqs, wpc, stack, act, fidref, wire, impl, fc, nfc, fdir>>
   /\ UNCHANGED ghosts
 
 SWriteClosed ==                \* send_got after the client has gone: the write fails at once
   /\ spc = "got" /\ cstate # "open"
   /\ SenderNext
   /\ crashed' = (crashed \/ fc[rq[scur].rc].kind = "none")
-  /\ UNCHANGED <<nreq, rq, reqs, wpc, stack, act, fidref, wire, impl, fc, nfc, cstate, cpc>>
+  /\ UNCHANGED <<nreq, rq, reqs, wpc, stack, act, fidref, wire, impl, fc, nfc, cstate, cpc, fdir>>
   /\ UNCHANGED <<cancelled, badcall, destroyed, creator, calls, extra, closedn>>
 
 CloseEnter ==                  \* close_enter: stop the sender (needs it at its select), unregister, ConnClosed
   /\ cpc = "enter" /\ spc = "idle"
   /\ spc' = "gone" /\ cpc' = "destroy" /\ closedn' = closedn + 1
-  /\ UNCHANGED <<nreq, rq, reqs, wpc, stack, act, fidref, scur, outq, wire, impl, fc, pool, nfc, cstate>>
+  /\ UNCHANGED <<nreq, rq, reqs, wpc, stack, act, fidref, scur, outq, wire, impl, fc, pool, nfc, cstate, fdir>>
   /\ UNCHANGED <<cancelled, badcall, crashed, destroyed, creator, calls, extra>>
 
 CloseDestroy ==                \* close_destroy: FidDestroy for every fid still in the table
@@ -424,7 +427,7 @@ CloseDestroy ==                \* close_destroy: FidDestroy for every fid still 
        ELSE \* as coded: FidDestroy for each fid in the pool, pool and counts untouched
             /\ destroyed' = [f \in Fids |-> destroyed[f] + (IF fidref[f] > 0 THEN 1 ELSE 0)]
             /\ UNCHANGED fidref
-  /\ UNCHANGED <<nreq, rq, reqs, wpc, stack, act, spc, scur, outq, wire, impl, fc, pool, nfc, cstate>>
+  /\ UNCHANGED <<nreq, rq, reqs, wpc, stack, act, spc, scur, outq, wire, impl, fc, pool, nfc, cstate, fdir>>
   /\ UNCHANGED <<cancelled, badcall, crashed, creator, calls, extra, closedn>>
 
 
